@@ -117,8 +117,9 @@ Definition parse_int (b : bytes) : option (Z * bytes) :=
   | _ => None
   end.
 
-(* asn1.Unmarshal into the two-INTEGER struct: extra bytes inside and after the SEQUENCE are tolerated *)
-Definition der_parse (b : bytes) : option (Z * Z) :=
+(* asn1.Unmarshal into the two-INTEGER struct: extra bytes inside the SEQUENCE are tolerated; the bytes after the
+   SEQUENCE are returned as `rest` *)
+Definition der_parse_rest (b : bytes) : option (Z * Z * bytes) :=
   match b with
   | 48 :: r =>
       match parse_len r with
@@ -127,7 +128,7 @@ Definition der_parse (b : bytes) : option (Z * Z) :=
           if (length r' <? k)%nat then None
           else match parse_int (firstn k r') with
                | Some (x, r2) => match parse_int r2 with
-                                 | Some (y, _) => Some (x, y)
+                                 | Some (y, _) => Some (x, y, skipn k r')
                                  | None => None
                                  end
                | None => None
@@ -136,6 +137,8 @@ Definition der_parse (b : bytes) : option (Z * Z) :=
       end
   | _ => None
   end.
+Definition der_parse (b : bytes) : option (Z * Z) :=
+  match der_parse_rest b with Some (x, y, _) => Some (x, y) | None => None end.
 
 (* asn1decode: parse, marshal again, compare with the input *)
 Definition der_decode (b : bytes) : option (Z * Z) :=
@@ -143,6 +146,18 @@ Definition der_decode (b : bytes) : option (Z * Z) :=
   | Some (r, s) => if bytes_eqb (der_encode r s) b then Some (r, s) else None
   | None => None
   end.
+
+(* ---------- signature/verifier ECDSASignatureVerifier (component/models): P1363 when exactly 2n bytes, otherwise
+   asn1.Unmarshal (no re-marshal check).  AsIs = before fix (bytes after the SEQUENCE ignored), Fixed = rejected *)
+Inductive variant := AsIs | Fixed.
+Definition pkv_decode (v : variant) (n : nat) (sig : bytes) : option (Z * Z) :=
+  if (length sig <? 2 * n)%nat then None
+  else if (2 * n <? length sig)%nat then
+    match der_parse_rest sig with
+    | Some (r, s, rest) => match v, rest with Fixed, _ :: _ => None | _, _ => Some (r, s) end
+    | None => None
+    end
+  else Some (Z.of_N (of_be (firstn n sig)), Z.of_N (of_be (skipn n sig))).
 
 (* ---------- keysets ---------- *)
 Inductive ptype := PRaw | PTink.
@@ -267,11 +282,18 @@ Section SIG.
      else false)
     || existsb (fun k => key_verify k sig m) (filter s_is_raw ks).
 
+  (* PublicKeyVerifier on the exported public key *)
+  Definition pkv_verify (v : variant) (n : nat) (mat : N) (sig : bytes) (m : msg) : bool :=
+    match pkv_decode v n sig with
+    | Some (r, s) => core_verify mat m (SRS r s)
+    | None => false
+    end.
+
   (* ExportPubKeyBytes + PubKeyBytesToHandle in another KMS: one key, id 1, RAW prefix, encoding by key type *)
   Definition reimport (k : skey) (import_enc : senc) : list skey :=
     [ {| s_id := 1; s_pt := PRaw; s_mat := s_mat k; s_enc := import_enc |} ].
 End SIG.
-Arguments key_verify {msg}. Arguments svc_sign {msg}. Arguments svc_verify {msg}.
+Arguments key_verify {msg}. Arguments svc_sign {msg}. Arguments svc_verify {msg}. Arguments pkv_verify {msg}.
 
 (* ---------- MAC (Tink wrapper: prefix ++ tag) ---------- *)
 Section MAC.
